@@ -171,6 +171,9 @@ func c07Corpus(srv string) []*c07Session {
 		b.ext("POSIX-RENAME", "posix-rename@openssh.com", (&rb{}).str("pre.txt").str("q.txt").b)
 		b.ext("HARDLINK", "hardlink@openssh.com", (&rb{}).str("q.txt").str("q2.txt").b)
 		b.setstat("q.txt", 1, attrBlock(1, 4, 0, 0, 0, 0, 0))
+		// size and one extended pair (the pair is ignored by both servers; the count field and the pair's lengths are there to be
+		// mutated: a count that announces more pairs than the block holds makes the request malformed)
+		b.setstat("q.txt", 0x80000001, append(attrBlock(1, 5, 0, 0, 0, 0, 0), (&rb{}).u32(1).str("aaaaaaaa").str("").b...))
 		h = b.open("q.txt", 3, 0, nil, true)
 		b.add("FSETSTAT", func(id uint32) []byte { return rawFsetstat(id, h, 4, attrBlock(4, 0, 0, 0, 0o600, 0, 0)) })
 		b.write(h, 2, []byte("ZZ"))
@@ -470,7 +473,27 @@ func c07AttrShort(typ byte, payload []byte) bool {
 			need += f.n
 		}
 	}
-	return len(b) < need
+	if len(b) < need {
+		return true
+	}
+	if fl&0x80000000 != 0 {
+		// the extended pairs the count announces must all be there (each a pair of length-prefixed strings)
+		rest := b[need-4:]
+		count := binary.BigEndian.Uint32(rest)
+		rest = rest[4:]
+		for i := uint32(0); i < count; i++ {
+			for k := 0; k < 2; k++ {
+				var ok bool
+				if _, rest, ok = c07Str(rest); !ok {
+					return true
+				}
+			}
+			if i > 1<<16 {
+				return true
+			}
+		}
+	}
+	return false
 }
 
 // c07Classify reads M the way a server does. g = number of leading frames identical to the reference. class:
@@ -998,6 +1021,9 @@ func (st *c07Child) handle(req string) string {
 	val, _ := strconv.ParseUint(f[6], 10, 64)
 	if f[3] == "pipeopen" {
 		return c07PipeOpen(srv, alloc, filepath.Join(st.base, "w"), fi, int(val))
+	}
+	if f[3] == "pipewrite" {
+		return c07PipeWrite(srv, alloc, filepath.Join(st.base, "w"), fi)
 	}
 	s := st.corpus[srv][si]
 	ref := st.ref(srv, alloc, si)
